@@ -13,7 +13,7 @@ import z3
 from symx import core, harness, minterp
 from . import common, defs, pertable, gen, _mk
 from .defs import T, F
-from .c13 import universes
+from .c13 import universes, cp
 
 PID = 'C14'
 
@@ -102,9 +102,10 @@ def unit_derive(args, prefix=(), max_depth=None):
             for name, a in insts:
                 nruns += 1
 
-                def body(name=name, a=a):
+                def body(name=name, a0=a):
                     cx = core.ctx()
-                    d, m = eng.mk(O, P, 'd')
+                    a = cp(a0)
+                    d, m = eng.mk(cp(O), cp(P), 'd')
                     C = dict(m)
                     out = {'cex': [], 'queries': 0}
                     other, m2 = None, {}
